@@ -997,6 +997,9 @@ class Interp:
             raise Top(f"comparison: {ex}")
 
     def _eq(self, a, b):
+        if isinstance(a, SymDim) != isinstance(b, SymDim) and isinstance(a if not isinstance(a, SymDim) else b, (Poly, Sym)):
+            sd, other = (a, b) if isinstance(a, SymDim) else (b, a)
+            return self._eq(sd.poly(), other)
         if isinstance(a, (Poly, Sym)) or isinstance(b, (Poly, Sym)):
             try:
                 pa, pb = lift(a), lift(b)
@@ -1012,7 +1015,13 @@ class Interp:
             if isinstance(b, AT) and b.axes == (): return self._eq(a, b.data[()])
             raise Top("elementwise == on tensors")
         if isinstance(a, SymDim) or isinstance(b, SymDim):
-            return a == b
+            if isinstance(a, SymDim) and isinstance(b, SymDim):
+                return a == b
+            other = b if isinstance(a, SymDim) else a
+            if isinstance(other, (Poly, Sym, AT)):
+                sd = a if isinstance(a, SymDim) else b
+                return self._eq(sd.poly(), other)
+            return False
         if isinstance(a, tuple) and isinstance(b, tuple):
             if len(a) != len(b): return False
             res = [self._eq(x, y) for x, y in zip(a, b)]
